@@ -120,7 +120,10 @@ func c05(c *Ctx) {
 	p, r := c.K1(), c.R
 	if !c.importing {
 		// R5: what a call returns is computed by the selection function on every call (C04.R2): no remembered result
-		importSibling(c, "C04", "C05.R5", func(rule string) bool { return rule == "C04.R2" })
+		importSibling(c, "C04", "C05.R5", func(rule string) bool { return rule == "C04.R2" || rule == "C04.R9" })
+		// R7: a sequence given after an Apply starts a fresh stub that is installed (C12.R2): otherwise the values are
+		// appended to a dead sequence and the callback keeps answering
+		importSibling(c, "C12", "C05.R7", func(rule string) bool { return rule == "C12.R2" })
 	}
 	r.Expl = "Structural clauses behind 'result sequences are served in order and stick at the last element': the cursor is a per-matcher struct field advanced only by an atomic +1 (an add, or a compare-and-swap that replaces the atomically loaded value by that value plus 1 and counts only where it succeeded); the mocker-level Return/Returns hand the caller's values to the When on every way to a return; every index into the result list is proven in range by difference-constraint reasoning over the dominating branch conditions; the advancing path serves the pre-increment position, non-advancing paths serve the last element; Return/AndReturn feed the open condition's or the default's list first-write-wins. Schedules themselves are not explored."
 	r.RuleText = "one obligation per (rule, function/field/call site); distinct = distinct rule×construct pairs; all are non-trivial (each names a concrete SSA construct of /repo)"
